@@ -227,7 +227,7 @@ func runC32(p *core.Program, r *core.Report) {
 		}
 	}
 	// FINAL-ONCE
-	isRedrawCb := func(ins ssa.Instruction, final bool) bool {
+	directRedrawCb := func(ins ssa.Instruction, final bool) bool {
 		c, ok := ins.(*ssa.Call)
 		if !ok || c.Call.IsInvoke() {
 			return false
@@ -238,6 +238,43 @@ func runC32(p *core.Program, r *core.Report) {
 		k, isConst := c.Call.Args[0].(*ssa.Const)
 		isFinal := isConst && k.Value != nil && k.Uint64()&2 != 0
 		return isFinal == final
+	}
+	// a redraw may be made by a small helper of the package (finish): the
+	// call counts when every path through the helper makes exactly one such
+	// redraw call
+	isRedrawCb := func(ins ssa.Instruction, final bool) bool {
+		if directRedrawCb(ins, final) {
+			return true
+		}
+		c, ok := ins.(*ssa.Call)
+		if !ok {
+			return false
+		}
+		h := c.Call.StaticCallee()
+		if h == nil || core.PkgPathOf(h) != pkgCLI || h.Blocks == nil || h == run {
+			return false
+		}
+		var calls []ssa.Instruction
+		other := false
+		core.Instrs(h, func(x ssa.Instruction) {
+			if directRedrawCb(x, final) {
+				calls = append(calls, x)
+			} else if directRedrawCb(x, !final) {
+				other = true
+			}
+		})
+		if len(calls) != 1 || other {
+			return false
+		}
+		if len(h.Blocks[0].Instrs) == 0 {
+			return false
+		}
+		first := h.Blocks[0].Instrs[0]
+		if first == calls[0] {
+			return true
+		}
+		okAll, _ := core.MustPass(first, func(x ssa.Instruction) bool { return x == calls[0] }, nil)
+		return okAll
 	}
 	nret := 0
 	for _, b := range run.Blocks {
@@ -376,7 +413,26 @@ func runC30(p *core.Program, r *core.Report) {
 	if !r.Anchor("CACHE-LOCK", "highlight.Highlighter", hlT != nil) {
 		return
 	}
-	spec := guardSpec{pkg: pkgHL, structName: "Highlighter", mutex: "cacheMutex", fields: map[string]bool{"cache": true},
+	// the mutex of the Highlighter and what it guards are read off the
+	// struct declaration: the field of type sync.Mutex / sync.RWMutex, and the
+	// fields declared after it
+	hlMutex, hlGuarded := "", map[string]bool{}
+	if st, ok := hlT.Underlying().(*types.Struct); ok {
+		for i := 0; i < st.NumFields(); i++ {
+			f := st.Field(i)
+			if ts := f.Type().String(); hlMutex == "" && (ts == "sync.Mutex" || ts == "sync.RWMutex") {
+				hlMutex = f.Name()
+				continue
+			}
+			if hlMutex != "" {
+				hlGuarded[f.Name()] = true
+			}
+		}
+	}
+	if !r.Anchor("CACHE-LOCK", "a mutex field in highlight.Highlighter followed by the fields it guards", hlMutex != "" && len(hlGuarded) > 0) {
+		return
+	}
+	spec := guardSpec{pkg: pkgHL, structName: "Highlighter", mutex: hlMutex, fields: hlGuarded,
 		unlocked: func(ins ssa.Instruction) string {
 			if s, ok := ins.(*ssa.Send); ok {
 				if addr, ok := core.IsLoad(s.Chan); ok {
@@ -403,15 +459,49 @@ func runC30(p *core.Program, r *core.Report) {
 			return "", false
 		}
 		n, f := core.FieldName(fa)
-		if n != nil && n.Obj() == hlT.Obj() && f == "cache" {
+		if n != nil && n.Obj() == hlT.Obj() && hlGuarded[f] {
 			return "", true
 		}
 		if inner, ok := fa.X.(*ssa.FieldAddr); ok {
-			if n2, f2 := core.FieldName(inner); n2 != nil && n2.Obj() == hlT.Obj() && f2 == "cache" {
+			if n2, f2 := core.FieldName(inner); n2 != nil && n2.Obj() == hlT.Obj() && hlGuarded[f2] {
+				// the sub-field that holds the code is the string one
+				if isStringType(fa.Type().(*types.Pointer).Elem()) {
+					return "code", true
+				}
 				return f, true
 			}
 		}
 		return "", false
+	}
+	// late functions: the callbacks handed to highlight() and what they call
+	// inside the package (two levels)
+	late := map[*ssa.Function]bool{}
+	for _, fn := range fns {
+		core.Instrs(fn, func(ins ssa.Instruction) {
+			c, ok := ins.(*ssa.Call)
+			if !ok || c.Call.StaticCallee() != highlightFn {
+				return
+			}
+			for _, a := range c.Call.Args {
+				if cf, ok := closureOf(a); ok {
+					late[cf] = true
+				}
+			}
+		})
+	}
+	for depth := 0; depth < 2; depth++ {
+		for _, fn := range fns {
+			if !late[fn] {
+				continue
+			}
+			core.Instrs(fn, func(ins ssa.Instruction) {
+				if c, ok := ins.(ssa.CallInstruction); ok {
+					if callee := c.Common().StaticCallee(); callee != nil && core.PkgPathOf(callee) == pkgHL && callee != highlightFn {
+						late[callee] = true
+					}
+				}
+			})
+		}
 	}
 	nLate := 0
 	for _, fn := range fns {
@@ -425,7 +515,7 @@ func runC30(p *core.Program, r *core.Report) {
 				return
 			}
 			fk := core.FnKey(fn)
-			if fn.Parent() == nil {
+			if !late[fn] {
 				// synchronous writers
 				if sub != "" {
 					r.Bad("GET-CONSISTENT", fk+" store cache."+sub, p.InsPos(ins), "a single field of the cache is overwritten outside a late callback: code and result can get out of step")
@@ -516,7 +606,15 @@ func staleGuard(fn *ssa.Function, st *ssa.Store, cacheSub func(ssa.Value) (strin
 		if unlockBetween {
 			return false, "the cached code is compared, but the mutex is released between the comparison and the store: the code can change in between"
 		}
-		// the compared value is a captured variable bound to highlight()'s argument
+		// the compared value is the code highlight() was asked to highlight:
+		// a captured variable bound to its argument, or a parameter that every
+		// call site fills with such a value
+		if prm, isPrm := other.(*ssa.Parameter); isPrm && fn.Parent() == nil {
+			if codeParamFromHighlight(fn, prm, highlightFn, 0) {
+				return true, ""
+			}
+			return false, "the parameter compared with the cached code is not, at every call site, the code that highlight() was asked to highlight"
+		}
 		cell := cellOf(other)
 		fv, ok := cell.(*ssa.FreeVar)
 		if !ok {
@@ -605,4 +703,101 @@ func checkGetConsistent(p *core.Program, r *core.Report, fn *ssa.Function, st *s
 	} else {
 		r.Bad("GET-CONSISTENT", construct, p.InsPos(st), "the styled text stored in the cache is not the result of highlight() for that code")
 	}
+}
+
+// codeParamFromHighlight: at every static call site of fn (an unexported
+// function of the highlight package) the argument for prm is the code that
+// highlight() was called with - a variable captured by the callback closure
+// that is passed to that very highlight() call, or again such a parameter.
+func codeParamFromHighlight(fn *ssa.Function, prm *ssa.Parameter, highlightFn *ssa.Function, depth int) bool {
+	if depth > 3 || fn.Pkg == nil {
+		return false
+	}
+	if obj := fn.Object(); obj == nil || obj.Exported() {
+		return false
+	}
+	idx := -1
+	for i, q := range fn.Params {
+		if q == prm {
+			idx = i
+		}
+	}
+	if idx < 0 {
+		return false
+	}
+	var callers []*ssa.Function
+	var add func(f *ssa.Function)
+	add = func(f *ssa.Function) {
+		callers = append(callers, f)
+		for _, a := range f.AnonFuncs {
+			add(a)
+		}
+	}
+	for _, m := range fn.Pkg.Members {
+		switch x := m.(type) {
+		case *ssa.Function:
+			add(x)
+		case *ssa.Type:
+			for _, t := range []types.Type{x.Type(), types.NewPointer(x.Type())} {
+				ms := fn.Prog.MethodSets.MethodSet(t)
+				for i := 0; i < ms.Len(); i++ {
+					if f := fn.Prog.MethodValue(ms.At(i)); f != nil && f.Pkg == fn.Pkg && f.Synthetic == "" {
+						add(f)
+					}
+				}
+			}
+		}
+	}
+	n, ok := 0, true
+	seen := map[ssa.Instruction]bool{}
+	for _, caller := range callers {
+		core.Instrs(caller, func(ins ssa.Instruction) {
+			c, isCall := ins.(ssa.CallInstruction)
+			if !isCall || c.Common().StaticCallee() != fn || seen[ins] {
+				return
+			}
+			seen[ins] = true
+			n++
+			arg := c.Common().Args[idx]
+			switch a := cellOf(arg).(type) {
+			case *ssa.Parameter:
+				if !codeParamFromHighlight(caller, a, highlightFn, depth+1) {
+					ok = false
+				}
+			case *ssa.FreeVar:
+				// caller is a closure: the free variable must be bound to
+				// the first argument of the highlight() call the closure is
+				// passed to
+				fvIdx := -1
+				for i, x := range caller.FreeVars {
+					if x == a {
+						fvIdx = i
+					}
+				}
+				bound := false
+				if parent := caller.Parent(); parent != nil && fvIdx >= 0 {
+					core.Instrs(parent, func(x ssa.Instruction) {
+						mc, isMC := x.(*ssa.MakeClosure)
+						if !isMC || mc.Fn != ssa.Value(caller) {
+							return
+						}
+						b := mc.Bindings[fvIdx]
+						for _, ref := range *mc.Referrers() {
+							if hc, isCall := ref.(*ssa.Call); isCall && hc.Call.StaticCallee() == highlightFn && len(hc.Call.Args) > 0 {
+								if cellOf(hc.Call.Args[0]) == b || hc.Call.Args[0] == b {
+									bound = true
+								}
+							}
+						}
+					})
+				}
+				if !bound {
+					ok = false
+				}
+			default:
+				ok = false
+			}
+		})
+	}
+	return ok && n > 0
 }
